@@ -8,7 +8,7 @@ import re
 import string
 import textwrap
 from pathlib import Path
-from typing import Collection, Iterable, List, Literal, Mapping, Sequence, Tuple
+from typing import Collection, Iterable, List, Literal, Mapping, NamedTuple, Sequence, Tuple
 
 from pyrefact import (
     abstractions,
@@ -2971,6 +2971,16 @@ def _is_recursive_binop_chain(node: ast.AST, op: ast.AST) -> bool:
     return True
 
 
+def _reads_variable(template_match: NamedTuple, *fields: str) -> bool:
+    """Does any of these parts of the match contain the variable that is being built?"""
+    variable = template_match.variable
+    return any(
+        _is_same_code(node, variable)
+        for field in fields
+        for node in core.walk(getattr(template_match, field), type(variable))
+    )
+
+
 @processing.fix
 def replace_setcomp_add_with_union(source: str) -> str:
     find = """
@@ -2985,6 +2995,8 @@ def replace_setcomp_add_with_union(source: str) -> str:
     for before, after, template_match in processing.find_replace(
         source, find, replace, yield_match=True
     ):
+        if _reads_variable(template_match, "something_else", "iterable"):
+            continue
         if isinstance(template_match.root, ast.BinOp):
             if _is_recursive_binop_chain(template_match.root, ast.BitOr):
                 yield before, after
@@ -3002,6 +3014,8 @@ def replace_setcomp_add_with_union(source: str) -> str:
     for before, after, template_match in processing.find_replace(
         source, find, replace, yield_match=True
     ):
+        if _reads_variable(template_match, "something_else"):
+            continue
         if isinstance(template_match.root, ast.BinOp):
             if _is_recursive_binop_chain(template_match.root, ast.BitOr):
                 yield before, after
@@ -3023,6 +3037,8 @@ def replace_listcomp_append_with_plus(source: str) -> str:
     for before, after, template_match in processing.find_replace(
         source, find, replace, yield_match=True
     ):
+        if _reads_variable(template_match, "something_else", "iterable"):
+            continue
         if isinstance(template_match.root, ast.BinOp):
             if _is_recursive_binop_chain(template_match.root, ast.Add):
                 yield before, after
@@ -3040,6 +3056,8 @@ def replace_listcomp_append_with_plus(source: str) -> str:
     for before, after, template_match in processing.find_replace(
         source, find, replace, yield_match=True
     ):
+        if _reads_variable(template_match, "something_else"):
+            continue
         if isinstance(template_match.root, ast.BinOp):
             if _is_recursive_binop_chain(template_match.root, ast.Add):
                 yield before, after
